@@ -41,7 +41,7 @@ Record CJ (s : state) : Prop := mkCJ {
 
 (** before start(): nothing but the trace has changed *)
 Definition PS (s : state) : Prop :=
-  exists a b c d, s = set_trace (init_state a b c d) (trace s) /\ enabled_of (trace s) <> Some true.
+  exists a b c d tr, s = set_trace (init_state a b c d) tr /\ enabled_of tr <> Some true.
 
 Definition CI (s : state) : Prop := if nl_started s then CJ s else PS s.
 
@@ -610,24 +610,1206 @@ Lemma cfv_fields s s' : cfv s' = cfv s ->
 Proof. unfold cfv. intros E. inversion E. repeat split; reflexivity. Qed.
 
 (** the completion of the run: every started plugin goes, the flag follows *)
-Lemma CJ_run_finish s x :
-  FI s -> CJ s -> runt s = Some x -> early x = true -> fresh (runt s) = false -> CJ (run_finish s).
+Lemma CJ_after_finish s s3 n :
+  CJ s -> st_fsm s = Running -> fresh (runt s) = false ->
+  tasks s3 = tasks s -> cont_plugins s3 = cont_plugins s -> nl_started s3 = nl_started s ->
+  cont_closed s3 = cont_closed s -> run_owner s3 = run_owner s -> run_cont s3 = run_cont s ->
+  enabled_of (trace s3) = enabled_of (trace s) -> (length (cont_plugins s3) <= n)%nat ->
+  CJ (set_runt (cont_finished s3 n) (Some RT_G_fin)).
 Proof.
-  intros [HP HS] HC Hr He Hnf. pose proof (sc_early _ _ _ _ _ _ HS x Hr He) as Hfs.
-  unfold run_finish. simpl. rewrite Hfs.
-  set (s3 := log_hook (set_st_fsm (set_run_arg (set_started_ev s true) None) Finished) HFinished None None).
-  set (n := length (cont_plugins s3)).
+  intros HC Hfs Hnf F8 Fp F1 F2 F3 F4 Ft Hn.
   destruct (cfv_fields _ _ (cf_fields n s3)) as (E1 & E2 & E3 & E4 & E5 & E6 & E7 & E8).
   assert (Ep : cont_plugins (cont_finished s3 n) = filter unstarted (cont_plugins s)).
-  { rewrite cf_plugins; [reflexivity|]. unfold n. apply filter_length_le. }
+  { rewrite cf_plugins; [rewrite Fp; reflexivity|]. pose proof (filter_length_le (fun x : nat * bool => snd x) (cont_plugins s3)). lia. }
   pose proof HC as [h1 h2 h3 h4 h5 h6 h7].
-  constructor; simpl; rewrite ?E1, ?E2, ?E3, ?E4, ?E5, ?E8, ?Ep; simpl; auto.
+  constructor; simpl; rewrite ?E1, ?E2, ?E3, ?E4, ?E8, ?Ep, ?F1, ?F2, ?F3, ?F4, ?F8; auto.
   - intros t' Hin. apply filter_In in Hin. destruct Hin as (Hin & _).
-    destruct (h2 _ Hin) as (c & p & Hf & Hc & Hp). exists c, p. simpl. rewrite E8. simpl.
+    destruct (h2 _ Hin) as (c & p & Hf & Hc & Hp). exists c, p. simpl. rewrite E8, F8.
     repeat split; auto. destruct Hp as [-> | [-> | (_ & _ & _ & Hfr)]]; [left | right; left | congruence]; reflexivity.
   - apply NoDup_filter. auto.
   - intros t' Hin. apply filter_In in Hin. destruct Hin as (_ & Hu). discriminate.
   - discriminate.
   - intros Hcl. rewrite (h6 Hcl) in Hfs. discriminate.
-  - intros Hcl. rewrite <- Ep. apply cf_flag. simpl. auto.
+  - intros Hcl. rewrite <- Ep. apply cf_flag. rewrite Ft, Fp. auto.
+Qed.
+
+Lemma CJ_run_finish s x :
+  FI s -> CJ s -> runt s = Some x -> early x = true -> fresh (runt s) = false -> CJ (run_finish s).
+Proof.
+  intros [HP HS] HC Hr He Hnf. pose proof (sc_early _ _ _ _ _ _ HS x Hr He) as Hfs.
+  unfold run_finish. simpl. rewrite Hfs.
+  apply (CJ_after_finish s); auto.
+Qed.
+
+(** ---- a step of the run task ---- *)
+Lemma CJ_run_step s s' :
+  CJ s -> tasks s' = tasks s -> cont_plugins s' = cont_plugins s -> nl_started s' = nl_started s ->
+  cont_closed s' = cont_closed s -> run_owner s' = run_owner s -> run_cont s' = run_cont s ->
+  st_fsm s' = st_fsm s -> enabled_of (trace s') = enabled_of (trace s) ->
+  (mid (runt s) = true -> mid (runt s') = true) ->
+  (fresh (runt s) = true -> fresh (runt s') = true) ->
+  (fresh (runt s') = true -> started_ev s' = false) -> CJ s'.
+Proof.
+  intros HC E8 Ep E1 E2 E3 E4 E7 Et Hm Hf Hev. pose proof HC as [h1 h2 h3 h4 h5 h6 h7].
+  constructor; rewrite ?E1, ?E2, ?E3, ?E4, ?E7, ?Ep, ?Et; auto.
+  - intros t' Hin. destruct (h2 _ Hin) as (c & p & Hft & Hc & Hp). exists c, p. rewrite E8.
+    repeat split; auto. unfold pend_pc. rewrite E3, E4.
+    destruct Hp as [-> | [-> | (-> & Ho & Hrc & Hfr)]]; auto. right. right. auto.
+  - intros t' Hin. destruct (h4 _ Hin) as (Ho & Hrc & Hmid). auto.
+Qed.
+
+(** Continue.on_start_run *)
+Lemma arm_in_false r o l t : In (t, false) (arm r o l) -> In (t, false) l /\ (r && Nat.eqb t o) = false.
+Proof.
+  unfold arm. intros Hin. apply in_map_iff in Hin. destruct Hin as ([t' b] & Heq & Hin). simpl in Heq.
+  assert (Et : t' = t) by congruence. subst t'.
+  assert (Hb : b || (r && Nat.eqb t o) = false) by congruence.
+  destruct b; simpl in Hb; [discriminate|]. auto.
+Qed.
+
+Lemma arm_in_true r o l t : (forall x, In x l -> snd x = false) ->
+  In (t, true) (arm r o l) -> r = true /\ t = o.
+Proof.
+  unfold arm. intros Hall Hin. apply in_map_iff in Hin. destruct Hin as ([t' b] & Heq & Hin). simpl in Heq.
+  assert (Et : t' = t) by congruence. subst t'.
+  assert (Hbb : b || (r && Nat.eqb t o) = true) by congruence.
+  pose proof (Hall _ Hin) as Hb. simpl in Hb. subst b. simpl in Hbb.
+  destruct r; simpl in Hbb; [|discriminate]. split; auto. apply Nat.eqb_eq. auto.
+Qed.
+
+Lemma arm_nodup r o l : (forall x, In x l -> snd x = false) -> NoDup l -> NoDup (arm r o l).
+Proof.
+  intros Hall Hnd. unfold arm. apply NoDup_map_in; auto.
+  intros [t1 b1] [t2 b2] H1 H2 Heq. pose proof (Hall _ H1) as E1. pose proof (Hall _ H2) as E2.
+  simpl in *. subst. inversion Heq. reflexivity.
+Qed.
+
+Lemma CJ_arm s s3 :
+  CJ s -> runt s = Some RT_Created ->
+  tasks s3 = tasks s -> cont_plugins s3 = cont_plugins s -> nl_started s3 = nl_started s ->
+  cont_closed s3 = cont_closed s -> run_owner s3 = run_owner s -> run_cont s3 = run_cont s ->
+  st_fsm s3 = st_fsm s -> enabled_of (trace s3) = enabled_of (trace s) ->
+  CJ (set_runt (set_cont_plugins s3 (arm (run_cont s) (run_owner s) (cont_plugins s))) (Some RT_G_start)).
+Proof.
+  intros HC Hr E8 Ep E1 E2 E3 E4 E7 Et. pose proof HC as [h1 h2 h3 h4 h5 h6 h7].
+  assert (Hall : forall x, In x (cont_plugins s) -> snd x = false).
+  { intros [t b] Hin. destruct b; auto. destruct (h4 _ Hin) as (_ & _ & Hm). rewrite Hr in Hm. discriminate. }
+  constructor; simpl; rewrite ?E1, ?E2, ?E3, ?E4, ?E7, ?Ep, ?Et, ?E8; auto.
+  - intros t' Hin. apply arm_in_false in Hin. destruct Hin as (Hin & Hno).
+    destruct (h2 _ Hin) as (c & p & Hf & Hc & Hp). exists c, p. simpl. rewrite E8.
+    repeat split; auto.
+    destruct Hp as [-> | [-> | (_ & Ho & Hrc & _)]]; [left | right; left |]; auto.
+    rewrite Hrc, Ho, Nat.eqb_refl in Hno. discriminate.
+  - apply arm_nodup; auto.
+  - intros t' Hin. apply arm_in_true in Hin; auto. destruct Hin as (-> & ->). auto.
+  - discriminate.
+  - intros Hcl. unfold arm. rewrite nonempty_map. auto.
+Qed.
+
+Lemma CJ_step_run s : FI s -> CJ s -> CJ (do_step_run s).
+Proof.
+  intros HF HC. pose proof HF as [HP HS]. pose proof HC as [h1 h2 h3 h4 h5 h6 h7].
+  unfold do_step_run. destruct (runt s) as [x|] eqn:Er; auto.
+  assert (Hra : early x = true -> run_arg s <> None).
+  { intros He. apply (sc_ra _ _ _ _ _ _ HS). right. eapply sc_early; eauto. }
+  destruct x.
+  - (* RT_New *)
+    destruct (run_arg s) eqn:Era; [|exfalso; apply Hra; auto].
+    apply (CJ_run_step s); simpl; auto; rewrite Er; simpl; auto.
+  - (* RT_Created *)
+    simpl. destruct (run_arg s) eqn:Era; [|exfalso; apply Hra; auto].
+    apply (CJ_arm s); auto.
+  - (* RT_G_start *)
+    apply (CJ_run_step s); simpl; auto; rewrite Er; simpl; auto; discriminate.
+  - (* RT_WaitChild *)
+    destruct (run_call_pending s); auto. destruct (pending_exit s) as [o|] eqn:Epe; auto.
+    simpl. destruct (run_arg s) eqn:Era; [|exfalso; apply Hra; auto].
+    apply (CJ_run_step s); simpl; auto; rewrite Er; simpl; auto; discriminate.
+  - (* RT_G_end *)
+    eapply CJ_run_finish; eauto. rewrite Er. reflexivity.
+  - (* RT_G_fin *)
+    apply (CJ_run_step s); simpl; auto; rewrite Er; simpl; auto; discriminate.
+  - (* RT_G_cs *)
+    apply (CJ_run_step s); simpl; auto; rewrite Er; simpl; auto; discriminate.
+Qed.
+
+Lemma CJ_child_exit s o : CJ s -> CJ (do_child_exit s o).
+Proof.
+  intros HC. unfold do_child_exit. destruct (alive s); auto.
+  eapply CJ_ext; [| | | exact HC]; reflexivity.
+Qed.
+
+Theorem CJ_step s l : LkS s -> FI s -> CJ s -> CJ (step s l).
+Proof.
+  intros HL HF HC. destruct l; simpl.
+  - apply CJ_do_call; auto.
+  - apply CJ_do_step; auto.
+  - apply CJ_step_run; auto.
+  - apply CJ_child_exit; auto.
+Qed.
+
+(** ---- before start() ---- *)
+Ltac ps_same a b c d :=
+  exists a, b, c, d; eexists; split; [reflexivity | simpl; try assumption; try discriminate].
+
+Lemma CJ_first_start (s' : state) :
+  nl_started s' = true -> cont_plugins s' = [] -> runt s' = None -> cont_closed s' = false ->
+  enabled_of (trace s') = Some false -> CJ s'.
+Proof.
+  intros E1 E2 E3 E4 E5. constructor; rewrite ?E2, ?E3; simpl; auto; try discriminate; try contradiction.
+  - constructor.
+  - rewrite E4. discriminate.
+Qed.
+
+Lemma CI_step_pre s l : nl_started s = false -> PS s -> CI (step s l).
+Proof.
+  intros Hns (a & b & c & d & tr & -> & Hen). unfold CI. destruct l as [t c0| t | | o]; simpl.
+  - unfold do_call. simpl.
+    destruct c0; cbv -[Nat.eqb PS]; rewrite ?Nat.eqb_refl; cbv -[Nat.eqb PS]; rewrite ?Nat.eqb_refl; cbv -[Nat.eqb PS].
+    + apply CJ_first_start; reflexivity.
+    + ps_same a b c d.
+    + ps_same a b c d.
+    + apply CJ_first_start; reflexivity.
+    + ps_same a b c d.
+    + ps_same a b c d.
+    + ps_same a b c d.
+    + ps_same a b c d.
+    + ps_same a b c d.
+  - ps_same a b c d.
+  - ps_same a b c d.
+  - ps_same a b c d.
+Qed.
+
+(** ---- every reachable state ---- *)
+Lemma CI_init a b c d : CI (init_state a b c d).
+Proof. unfold CI. simpl. exists a, b, c, d, []. split; [reflexivity | simpl; discriminate]. Qed.
+
+Theorem CI_step s l : LkS s -> FI s -> CI s -> CI (step s l).
+Proof.
+  intros HL HF HC. unfold CI in HC. destruct (nl_started s) eqn:Ens.
+  - pose proof (CJ_step s l HL HF HC) as HC'. unfold CI. rewrite (cj_started _ HC'). exact HC'.
+  - apply CI_step_pre; auto.
+Qed.
+
+Theorem CI_reachable a b c d ls :
+  LkS (run_labels (init_state a b c d) ls) /\ FI (run_labels (init_state a b c d) ls) /\
+  CI (run_labels (init_state a b c d) ls).
+Proof.
+  unfold run_labels. generalize (LkS_init a b c d) (FI_init a b c d) (CI_init a b c d).
+  generalize (init_state a b c d).
+  induction ls as [|l ls IH]; intros s HL HF HC; simpl; auto.
+  apply IH; [apply LkS_step | apply FI_step | apply CI_step]; auto.
+Qed.
+
+(** the structural invariant in one statement *)
+Definition cont_inv (s : state) : Prop :=
+  (forall t, In (t, false) (cont_plugins s) -> pend_ok s t) /\
+  NoDup (cont_plugins s) /\
+  (forall t, In (t, true) (cont_plugins s) ->
+     t = run_owner s /\ run_cont s = true /\ mid (runt s) = true) /\
+  (nl_started s = false -> cont_plugins s = []).
+
+Lemma PS_plugins s : PS s -> cont_plugins s = [] /\ cont_closed s = false /\ enabled_of (trace s) <> Some true.
+Proof. intros (a & b & c & d & tr & -> & Hen). simpl. auto. Qed.
+
+Lemma CI_cont_inv s : CI s -> cont_inv s.
+Proof.
+  unfold CI, cont_inv. destruct (nl_started s) eqn:Ens; intros H.
+  - destruct H as [h1 h2 h3 h4 h5 h6 h7]. split; [|split; [|split]]; auto. discriminate.
+  - destruct (PS_plugins _ H) as (E & _). rewrite E. split; [|split; [|split]]; auto; try (intros; contradiction). constructor.
+Qed.
+
+Theorem cont_inv_reachable a b c d ls : cont_inv (run_labels (init_state a b c d) ls).
+Proof. apply CI_cont_inv. apply CI_reachable. Qed.
+
+Theorem flag_reachable a b c d ls :
+  let s := run_labels (init_state a b c d) ls in
+  (nl_started s = true -> cont_closed s = false ->
+   enabled_of (trace s) = Some (nonempty (cont_plugins s))) /\
+  (nl_started s = false ->
+   cont_plugins s = [] /\ cont_closed s = false /\ enabled_of (trace s) <> Some true).
+Proof.
+  intros s. destruct (CI_reachable a b c d ls) as (_ & _ & HC). fold s in HC. unfold CI in HC.
+  destruct (nl_started s) eqn:Ens; split; intros; try discriminate.
+  - apply (cj_flag _ HC); auto.
+  - apply PS_plugins; auto.
+Qed.
+
+Theorem plain_run_reachable a b c d ls :
+  let s := run_labels (init_state a b c d) ls in
+  run_cont s = false -> forall x, In x (cont_plugins s) -> snd x = false.
+Proof.
+  intros s Hrc [t b0] Hin. destruct (cont_inv_reachable a b c d ls) as (_ & _ & H & _). fold s in H.
+  destruct b0; auto. destruct (H _ Hin) as (_ & E & _). congruence.
+Qed.
+
+Lemma NoDup_all_eq {A} (l : list A) a : NoDup l -> (forall x, In x l -> x = a) -> (length l <= 1)%nat.
+Proof.
+  intros Hnd Hall. destruct l as [|x [|y l]]; simpl; auto.
+  exfalso. inversion Hnd as [|? ? Hni _]; subst. apply Hni. left.
+  rewrite (Hall x), (Hall y); simpl; auto.
+Qed.
+
+Theorem started_at_most_one a b c d ls :
+  let s := run_labels (init_state a b c d) ls in
+  (length (filter (fun x => snd x) (cont_plugins s)) <= 1)%nat.
+Proof.
+  intros s. destruct (cont_inv_reachable a b c d ls) as (_ & Hnd & H & _). fold s in Hnd, H.
+  apply (NoDup_all_eq _ (run_owner s, true)).
+  - apply NoDup_filter. auto.
+  - intros [t b0] Hin. apply filter_In in Hin. destruct Hin as (Hin & Hb). simpl in Hb. subst b0.
+    destruct (H _ Hin) as (-> & _). reflexivity.
+Qed.
+
+(** ---- which return a step adds to the history ---- *)
+Fixpoint rets_of (tr : list event) : list (nat * call * result) :=
+  match tr with
+  | [] => []
+  | EvRet t c r :: k => (t, c, r) :: rets_of k
+  | _ :: k => rets_of k
+  end.
+
+(** the state either has the returns [base], or one more; a refused continue
+    request has its plugin removed and the flag re-published just before it returns *)
+Definition RSb (base : list (nat * call * result)) (s' : state) : Prop :=
+  rets_of (trace s') = base \/
+  exists t c r tr1, trace s' = EvRet t c r :: tr1 /\ rets_of tr1 = base /\
+    (r = RMachineError -> is_cont c = true ->
+     ~ In (t, false) (cont_plugins s') /\
+     exists tr2, tr1 = EvPub (PCont (nonempty (cont_plugins s'))) :: tr2).
+
+Lemma RSb_same base s' : rets_of (trace s') = base -> RSb base s'.
+Proof. left. assumption. Qed.
+
+Lemma RSb_finish base s1 t c r :
+  rets_of (trace s1) = base -> r <> RMachineError \/ is_cont c = false -> RSb base (finish_call s1 t c r).
+Proof.
+  intros E Hor. right. exists t, c, r, (trace s1). simpl. repeat split; auto.
+  all: intros; destruct Hor; congruence.
+Qed.
+
+Lemma unreg_not_in t l : ~ In (t, false) (filter (unreg_pred t) l).
+Proof.
+  intros Hin. apply filter_In in Hin. destruct Hin as (_ & H). unfold unreg_pred in H. simpl in H.
+  rewrite Nat.eqb_refl in H. discriminate.
+Qed.
+
+Lemma RSb_refuse base s t c : rets_of (trace s) = base -> RSb base (refuse s t c).
+Proof.
+  intros E. unfold refuse. destruct (is_cont c) eqn:Ec.
+  - destruct (cont_closed (release s)).
+    + apply RSb_finish; [cv_simpl; auto | left; discriminate].
+    + right. exists t, c, RMachineError. eexists. simpl. split; [reflexivity|]. cv_simpl.
+      split; auto. intros _ _. split; [apply unreg_not_in | eauto].
+  - apply RSb_finish; [cv_simpl; auto | right; auto].
+Qed.
+
+Ltac rs := first [apply RSb_refuse | apply RSb_finish | apply RSb_same]; cv_simpl; auto; try (left; discriminate).
+
+Lemma RSb_close_trigger base s t : rets_of (trace s) = base -> RSb base (close_trigger s t).
+Proof. intros E. unfold close_trigger. destruct (st_fsm s); try destruct (runt s); rs. Qed.
+
+Lemma RSb_enter_close base s t : rets_of (trace s) = base -> RSb base (enter_close s t).
+Proof.
+  intros E. unfold enter_close.
+  destruct (st_fsm (publish s PEndAll)); try (apply RSb_close_trigger; simpl; auto; fail).
+  destruct (run_finished (publish s PEndAll)) as [[|]|]; try (apply RSb_close_trigger; simpl; auto; fail); rs.
+Qed.
+
+Lemma RSb_enter base s t c part2 : rets_of (trace s) = base -> RSb base (enter s t c part2).
+Proof.
+  intros E. unfold enter.
+  assert (H1 : forall c0, RSb base (enter_start s t c0)).
+  { intros c0. unfold enter_start. destruct (st_fsm s); rs. }
+  assert (H2 : forall c0, RSb base (enter_run s t c0)).
+  { intros c0. unfold enter_run. destruct (st_fsm s); rs. }
+  destruct c; auto; try (apply RSb_same; exact E).
+  - unfold enter_reset. destruct (st_fsm s); try destruct (o_stmt o); rs.
+  - destruct part2; auto. apply RSb_enter_close; auto.
+Qed.
+
+Lemma RSb_acquire base s t c part2 : rets_of (trace s) = base -> RSb base (acquire s t c part2).
+Proof.
+  intros E. unfold acquire. destruct (holder s); [rs|]. destruct (lockq s); [|rs].
+  apply RSb_enter. simpl. auto.
+Qed.
+
+Lemma RSb_do_call s t c : RSb (rets_of (trace s)) (do_call s t c).
+Proof.
+  unfold do_call. destruct (find_task (tasks s) t); [rs|].
+  destruct c; cbn [nl_started nl_closed cont_closed running_process send_command set_trace];
+    try (apply RSb_acquire; reflexivity).
+  - destruct (nl_started s); [rs | apply RSb_acquire; reflexivity].
+  - destruct (nl_closed s); [rs|]. simpl. destruct (nl_started s); apply RSb_acquire; reflexivity.
+  - destruct (cont_closed s); [rs | apply RSb_acquire; reflexivity].
+  - destruct (cont_closed s); [rs | apply RSb_acquire; reflexivity].
+  - destruct (running_process s); rs.
+  - destruct (send_command s); rs.
+Qed.
+
+Lemma RSb_do_step s t : RSb (rets_of (trace s)) (do_step s t).
+Proof.
+  unfold do_step. destruct (find_task (tasks s) t) as [[c p]|]; [|rs].
+  destruct p; try (rs; fail); try (apply RSb_enter; reflexivity).
+  - (* S_G3 *) destruct c; try (rs; fail). apply RSb_acquire. cv_simpl. reflexivity.
+  - destruct (started_ev s); rs.
+  - destruct c; rs.
+  - destruct c; rs.
+  - destruct (st_fsm s); try destruct (runt s); rs.
+  - destruct (runt s); rs.
+  - destruct (run_finished s) as [[|]|]; try (rs; fail). apply RSb_close_trigger. reflexivity.
+  - destruct (runt s); rs.
+  - destruct (run_finished s) as [[|]|]; rs.
+Qed.
+
+Lemma cf_rets n : forall s, rets_of (trace (cont_finished s n)) = rets_of (trace s).
+Proof.
+  induction n as [|n IH]; intros s; simpl; auto.
+  destruct (filter _ (cont_plugins s)) as [|[t b] r]; auto. rewrite IH. reflexivity.
+Qed.
+
+Lemma run_finish_rets s : rets_of (trace (run_finish s)) = rets_of (trace s).
+Proof. unfold run_finish. simpl. destruct (st_fsm s); simpl; auto. rewrite cf_rets. reflexivity. Qed.
+
+Lemma step_run_rets s : rets_of (trace (do_step_run s)) = rets_of (trace s).
+Proof.
+  unfold do_step_run. destruct (runt s) as [[]|]; auto; try apply run_finish_rets.
+  - destruct (run_arg s); auto. apply run_finish_rets.
+  - simpl. destruct (run_arg s); auto. rewrite run_finish_rets. reflexivity.
+  - destruct (run_call_pending s); auto. destruct (pending_exit s); auto. simpl.
+    destruct (run_arg s); auto. rewrite run_finish_rets. reflexivity.
+Qed.
+
+Theorem RSb_step s l : RSb (rets_of (trace s)) (step s l).
+Proof.
+  destruct l; simpl.
+  - apply RSb_do_call.
+  - apply RSb_do_step.
+  - left. apply step_run_rets.
+  - left. unfold do_child_exit. destruct (alive s); reflexivity.
+Qed.
+
+(** a step that adds the refusal (MachineError) of a continue request *)
+Theorem refused_step s l t c :
+  is_cont c = true ->
+  rets_of (trace (step s l)) = (t, c, RMachineError) :: rets_of (trace s) ->
+  ~ In (t, false) (cont_plugins (step s l)) /\
+  enabled_of (trace (step s l)) = Some (nonempty (cont_plugins (step s l))) /\
+  exists tr2, trace (step s l) =
+    EvRet t c RMachineError :: EvPub (PCont (nonempty (cont_plugins (step s l)))) :: tr2.
+Proof.
+  intros Hc Hr. destruct (RSb_step s l) as [E | (t0 & c0 & r0 & tr1 & Et & E1 & H)].
+  - rewrite E in Hr. exfalso. apply (f_equal (@length _)) in Hr. simpl in Hr. lia.
+  - rewrite Et in Hr. simpl in Hr. rewrite E1 in Hr. inversion Hr; subst t0 c0 r0.
+    destruct (H eq_refl Hc) as (Hni & tr2 & ->). split; auto. rewrite Et. simpl. split; eauto.
+Qed.
+
+(** ---- after Continuous.close(): nothing is published on the flag any more ---- *)
+Fixpoint cpubs (tr : list event) : list bool :=
+  match tr with
+  | [] => []
+  | EvPub (PCont b) :: k => b :: cpubs k
+  | _ :: k => cpubs k
+  end.
+
+Definition Qb (b : list bool) (s' : state) : Prop := cpubs (trace s') = b /\ cont_closed s' = true.
+
+Ltac qs := match goal with H : Qb _ _ |- _ => destruct H as (?E1 & ?E2) end; split; cv_simpl; auto.
+
+Lemma Qb_refuse b s t c : Qb b s -> Qb b (refuse s t c).
+Proof.
+  intros H. unfold refuse. destruct (is_cont c); [|qs].
+  rewrite rl_closed. destruct H as (E1 & E2). rewrite E2. split; cv_simpl; auto.
+Qed.
+
+Lemma Qb_close_trigger b s t : Qb b s -> Qb b (close_trigger s t).
+Proof. intros H. unfold close_trigger. destruct (st_fsm s); try destruct (runt s); qs. Qed.
+
+Lemma Qb_enter_close b s t : Qb b s -> Qb b (enter_close s t).
+Proof.
+  intros H. unfold enter_close.
+  assert (H1 : Qb b (publish s PEndAll)) by (destruct H; split; auto).
+  destruct (st_fsm (publish s PEndAll)); try (apply Qb_close_trigger; auto; fail).
+  destruct (run_finished (publish s PEndAll)) as [[|]|]; try (apply Qb_close_trigger; auto; fail); qs.
+Qed.
+
+Lemma Qb_enter b s t c part2 : Qb b s -> Qb b (enter s t c part2).
+Proof.
+  intros H. unfold enter.
+  assert (H1 : forall c0, Qb b (enter_start s t c0)).
+  { intros c0. unfold enter_start. destruct (st_fsm s); try (apply Qb_refuse; auto; fail). qs. }
+  assert (H2 : forall c0, Qb b (enter_run s t c0)).
+  { intros c0. unfold enter_run. destruct (st_fsm s); try (apply Qb_refuse; auto; fail). qs. }
+  destruct c; auto.
+  - unfold enter_reset. destruct (st_fsm s); try (apply Qb_refuse; auto; fail); destruct (o_stmt o); qs.
+  - destruct part2; auto. apply Qb_enter_close; auto.
+Qed.
+
+Lemma Qb_acquire b s t c part2 : Qb b s -> Qb b (acquire s t c part2).
+Proof.
+  intros H. unfold acquire. destruct (holder s); [qs|]. destruct (lockq s); [|qs].
+  apply Qb_enter. destruct H. split; auto.
+Qed.
+
+Lemma Qb_do_call s t c : cont_closed s = true -> nl_started s = true ->
+  Qb (cpubs (trace s)) (do_call s t c).
+Proof.
+  intros Hcl Hst. unfold do_call.
+  assert (H0 : Qb (cpubs (trace s)) s) by (split; auto).
+  destruct (find_task (tasks s) t); auto.
+  assert (H1 : Qb (cpubs (trace s)) (set_trace s (EvCall t c :: trace s))) by (split; auto).
+  destruct c; cbn [nl_started nl_closed cont_closed running_process send_command set_trace];
+    rewrite ?Hcl, ?Hst; try (apply Qb_acquire; auto; fail); try (split; simpl; auto; fail).
+  - destruct (nl_closed s); [split; simpl; auto|]. simpl. rewrite Hst. apply Qb_acquire. split; auto.
+  - destruct (running_process s); split; simpl; auto.
+  - destruct (send_command s); split; simpl; auto.
+Qed.
+
+Lemma Qb_do_step s t : cont_closed s = true -> Qb (cpubs (trace s)) (do_step s t).
+Proof.
+  intros Hcl. assert (H0 : Qb (cpubs (trace s)) s) by (split; auto).
+  unfold do_step. destruct (find_task (tasks s) t) as [[c p]|]; auto.
+  destruct p; auto; try (apply Qb_enter; auto; fail); try (qs; fail).
+  - destruct c; try (qs; fail). apply Qb_acquire. qs.
+  - destruct (started_ev s); auto; qs.
+  - destruct c; auto; qs.
+  - destruct c; auto; qs.
+  - destruct (st_fsm s); try destruct (runt s); auto; qs.
+  - destruct (runt s); auto; qs.
+  - destruct (run_finished s) as [[|]|]; auto. apply Qb_close_trigger; auto.
+  - destruct (runt s); auto; qs.
+  - destruct (run_finished s) as [[|]|]; auto; qs.
+Qed.
+
+Lemma closed_step s l : FI s -> CI s -> cont_closed s = true ->
+  cpubs (trace (step s l)) = cpubs (trace s) /\ cont_closed (step s l) = true.
+Proof.
+  intros HF HC Hcl. unfold CI in HC. destruct (nl_started s) eqn:Ens.
+  - destruct l; simpl.
+    + apply Qb_do_call; auto.
+    + apply Qb_do_step; auto.
+    + pose proof (cj_closed _ HC Hcl) as Hfs. destruct HF as [_ HS].
+      assert (Hr : runt s = None) by (eapply Scal_idle; eauto; rewrite Hfs; discriminate).
+      unfold do_step_run. rewrite Hr. auto.
+    + unfold do_child_exit. destruct (alive s); auto.
+  - destruct (PS_plugins _ HC) as (_ & E & _). congruence.
+Qed.
+
+Theorem closed_forever a b c d ls ls' :
+  let s := run_labels (init_state a b c d) ls in
+  cont_closed s = true ->
+  cpubs (trace (run_labels s ls')) = cpubs (trace s) /\ cont_closed (run_labels s ls') = true.
+Proof.
+  intros s Hcl. destruct (CI_reachable a b c d ls) as (HL & HF & HC). fold s in HL, HF, HC.
+  revert HL HF HC Hcl. generalize s. clear s.
+  induction ls' as [|l ls' IH]; intros s HL HF HC Hcl; simpl; auto.
+  destruct (closed_step s l HF HC Hcl) as (E1 & E2).
+  destruct (IH (step s l)) as (E3 & E4); auto using LkS_step, FI_step, CI_step.
+  split; auto. unfold run_labels in *. congruence.
+Qed.
+
+(** a continue request on a closed Continuous fails at once and changes nothing else *)
+Lemma closed_request s t c : cont_closed s = true -> is_cont c = true -> find_task (tasks s) t = None ->
+  step s (Call t c) =
+  set_trace (set_tasks s (remove_task (tasks s) t)) (EvRet t c RRuntimeError :: EvCall t c :: trace s).
+Proof.
+  intros Hcl Hc Hf. simpl. unfold do_call. rewrite Hf. destruct c; try discriminate; simpl; rewrite Hcl; reflexivity.
+Qed.
+
+(** ---- the step in which the run task performs Callback._finish (on_finished) ---- *)
+Lemma run_finish_running s : st_fsm s = Running ->
+  runt (run_finish s) = Some RT_G_fin /\
+  cont_plugins (run_finish s) = filter unstarted (cont_plugins s) /\
+  cont_closed (run_finish s) = cont_closed s /\ nl_started (run_finish s) = nl_started s.
+Proof.
+  intros Hfs. unfold run_finish. simpl. rewrite Hfs. simpl.
+  match goal with |- context [cont_finished ?x ?n] =>
+    destruct (cfv_fields _ _ (cf_fields n x)) as (E1 & E2 & _);
+    pose proof (cf_plugins n x) as Ep end.
+  repeat split; auto. rewrite Ep; auto. apply filter_length_le.
+Qed.
+
+Theorem finished_step a b c d ls :
+  let s := run_labels (init_state a b c d) ls in
+  runt s = Some RT_G_end ->
+  let s' := step s StepRun in
+  runt s' = Some RT_G_fin /\
+  cont_plugins s' = filter unstarted (cont_plugins s) /\
+  (forall x, In x (cont_plugins s') -> snd x = false) /\
+  (cont_closed s = false -> enabled_of (trace s') = Some (nonempty (cont_plugins s'))).
+Proof.
+  intros s Hr s'. destruct (CI_reachable a b c d ls) as (HL & HF & HC). fold s in HL, HF, HC.
+  pose proof HF as [_ HS]. pose proof (sc_early _ _ _ _ _ _ HS _ Hr eq_refl) as Hfs.
+  assert (Es' : s' = run_finish s) by (unfold s'; simpl; unfold do_step_run; rewrite Hr; reflexivity).
+  destruct (run_finish_running s Hfs) as (E1 & E2 & E3 & E4). rewrite <- Es' in *.
+  repeat split; auto.
+  - intros [t b0] Hin. rewrite E2 in Hin. apply filter_In in Hin. destruct Hin as (_ & Hu).
+    unfold unstarted in Hu. simpl in *. destruct b0; auto.
+  - intros Hcl. pose proof (CI_step s StepRun HL HF HC) as HC'. fold s' in HC'. unfold CI in HC'.
+    destruct (nl_started s') eqn:Ens.
+    + apply (cj_flag _ HC'). congruence.
+    + destruct HC' as (a0 & b1 & c0 & d0 & tr & Hs & _). rewrite Hs in E1. discriminate.
+Qed.
+
+(** ---- the trace only grows: [trace (step s l) = new ++ trace s] ---- *)
+Definition Ex (base tr : list event) : Prop := exists new, tr = new ++ base.
+
+Lemma Ex_refl base : Ex base base. Proof. exists []. reflexivity. Qed.
+Lemma Ex_cons base tr e : Ex base tr -> Ex base (e :: tr).
+Proof. intros (new & ->). exists (e :: new). reflexivity. Qed.
+
+Ltac ex := cv_simpl; repeat apply Ex_cons; auto using Ex_refl.
+
+Lemma Ex_refuse base s t c : Ex base (trace s) -> Ex base (trace (refuse s t c)).
+Proof. intros H. unfold refuse. destruct (is_cont c); [destruct (cont_closed (release s))|]; ex. Qed.
+
+Lemma Ex_close_trigger base s t : Ex base (trace s) -> Ex base (trace (close_trigger s t)).
+Proof. intros H. unfold close_trigger. destruct (st_fsm s); try destruct (runt s); ex. Qed.
+
+Lemma Ex_enter_close base s t : Ex base (trace s) -> Ex base (trace (enter_close s t)).
+Proof.
+  intros H. unfold enter_close.
+  assert (H1 : Ex base (trace (publish s PEndAll))) by ex.
+  destruct (st_fsm (publish s PEndAll)); try (apply Ex_close_trigger; auto; fail).
+  destruct (run_finished (publish s PEndAll)) as [[|]|]; try (apply Ex_close_trigger; auto; fail); ex.
+Qed.
+
+Lemma Ex_enter base s t c part2 : Ex base (trace s) -> Ex base (trace (enter s t c part2)).
+Proof.
+  intros H. unfold enter.
+  assert (H1 : forall c0, Ex base (trace (enter_start s t c0))).
+  { intros c0. unfold enter_start. destruct (st_fsm s); try (apply Ex_refuse; auto; fail). ex. }
+  assert (H2 : forall c0, Ex base (trace (enter_run s t c0))).
+  { intros c0. unfold enter_run. destruct (st_fsm s); try (apply Ex_refuse; auto; fail). ex. }
+  destruct c; auto.
+  - unfold enter_reset. destruct (st_fsm s); try (apply Ex_refuse; auto; fail); destruct (o_stmt o); ex.
+  - destruct part2; auto. apply Ex_enter_close; auto.
+Qed.
+
+Lemma Ex_acquire base s t c part2 : Ex base (trace s) -> Ex base (trace (acquire s t c part2)).
+Proof.
+  intros H. unfold acquire. destruct (holder s); [ex|]. destruct (lockq s); [|ex].
+  apply Ex_enter. ex.
+Qed.
+
+Lemma Ex_do_call s t c : Ex (trace s) (trace (do_call s t c)).
+Proof.
+  unfold do_call. destruct (find_task (tasks s) t); [apply Ex_refl|].
+  destruct c; cbn [nl_started nl_closed cont_closed running_process send_command set_trace];
+    try (apply Ex_acquire; ex; fail).
+  - destruct (nl_started s); [ex | apply Ex_acquire; ex].
+  - destruct (nl_closed s); [ex|]. simpl. destruct (nl_started s); apply Ex_acquire; ex.
+  - destruct (cont_closed s); [ex | apply Ex_acquire; ex].
+  - destruct (cont_closed s); [ex | apply Ex_acquire; ex].
+  - destruct (running_process s); ex.
+  - destruct (send_command s); ex.
+Qed.
+
+Lemma Ex_do_step s t : Ex (trace s) (trace (do_step s t)).
+Proof.
+  pose proof (Ex_refl (trace s)) as H0.
+  unfold do_step. destruct (find_task (tasks s) t) as [[c p]|]; auto.
+  destruct p; auto; try (apply Ex_enter; auto; fail); try (ex; fail).
+  - destruct c; try (ex; fail). apply Ex_acquire. ex.
+  - destruct (started_ev s); auto; ex.
+  - destruct c; auto; ex.
+  - destruct c; auto; ex.
+  - destruct (st_fsm s); try destruct (runt s); auto; ex.
+  - destruct (runt s); auto; ex.
+  - destruct (run_finished s) as [[|]|]; auto. apply Ex_close_trigger; auto.
+  - destruct (runt s); auto; ex.
+  - destruct (run_finished s) as [[|]|]; auto; ex.
+Qed.
+
+Lemma Ex_cf base n : forall s, Ex base (trace s) -> Ex base (trace (cont_finished s n)).
+Proof.
+  induction n as [|n IH]; intros s H; simpl; auto.
+  destruct (filter _ (cont_plugins s)) as [|[t b] r]; auto. apply IH. ex.
+Qed.
+
+Lemma Ex_run_finish base s : Ex base (trace s) -> Ex base (trace (run_finish s)).
+Proof. intros H. unfold run_finish. simpl. destruct (st_fsm s); simpl; auto. apply Ex_cf. ex. Qed.
+
+Lemma Ex_step_run s : Ex (trace s) (trace (do_step_run s)).
+Proof.
+  pose proof (Ex_refl (trace s)) as H0.
+  unfold do_step_run. destruct (runt s) as [[]|]; auto; try (apply Ex_run_finish; auto; fail); try (ex; fail).
+  - destruct (run_arg s); [ex | apply Ex_run_finish; auto].
+  - simpl. destruct (run_arg s); [ex | apply Ex_run_finish; ex].
+  - destruct (run_call_pending s); auto. destruct (pending_exit s); auto. simpl.
+    destruct (run_arg s); [ex | apply Ex_run_finish; ex].
+Qed.
+
+Theorem step_trace_grows s l : exists new, trace (step s l) = new ++ trace s.
+Proof.
+  destruct l; simpl.
+  - apply Ex_do_call.
+  - apply Ex_do_step.
+  - apply Ex_step_run.
+  - unfold do_child_exit. destruct (alive s); apply Ex_refl.
+Qed.
+
+Lemma appended_new s s' new : trace s' = new ++ trace s -> appended s s' = rev new.
+Proof.
+  intros E. unfold appended. rewrite E, app_length.
+  replace (length new + length (trace s) - length (trace s))%nat with (length new) by lia.
+  rewrite firstn_app, firstn_all, Nat.sub_diag. simpl. rewrite app_nil_r. reflexivity.
+Qed.
+
+Lemma rets_of_app a b : rets_of (a ++ b) = rets_of a ++ rets_of b.
+Proof.
+  induction a as [|e a IH]; simpl; auto. destruct e; auto. simpl. rewrite IH. reflexivity.
+Qed.
+
+Lemma in_rets t c r tr : In (EvRet t c r) tr -> In (t, c, r) (rets_of tr).
+Proof.
+  induction tr as [|e tr IH]; simpl; auto. intros [-> | Hin]; [left; reflexivity|].
+  destruct e; auto. right. auto.
+Qed.
+
+(** the formulation with [appended] (Hist.v) *)
+Theorem refused_appended s l t c :
+  is_cont c = true -> In (EvRet t c RMachineError) (appended s (step s l)) ->
+  ~ In (t, false) (cont_plugins (step s l)) /\
+  enabled_of (trace (step s l)) = Some (nonempty (cont_plugins (step s l))).
+Proof.
+  intros Hc Hin. destruct (step_trace_grows s l) as (new & En).
+  rewrite (appended_new _ _ _ En) in Hin. apply in_rev in Hin. apply in_rets in Hin.
+  assert (Hr : rets_of (trace (step s l)) = rets_of new ++ rets_of (trace s)) by (rewrite En; apply rets_of_app).
+  destruct (RSb_step s l) as [E | (t0 & c0 & r0 & tr1 & Et & E1 & H)].
+  - rewrite E in Hr. apply (f_equal (@length _)) in Hr. rewrite app_length in Hr.
+    destruct (rets_of new); [destruct Hin | simpl in Hr; lia].
+  - assert (Hr2 : rets_of (trace (step s l)) = [(t0, c0, r0)] ++ rets_of (trace s)).
+    { rewrite Et. simpl. rewrite E1. reflexivity. }
+    rewrite Hr in Hr2. apply app_inv_tail in Hr2. rewrite Hr2 in Hin. destruct Hin as [Heq | []].
+    inversion Heq; subst t0 c0 r0.
+    destruct (refused_step s l t c Hc) as (A & B & _); auto. rewrite Et. simpl. rewrite E1. reflexivity.
+Qed.
+
+(** ---- the statements used by Props/C16.v ---- *)
+Theorem refused_reachable a b c d ls l t c0 :
+  let s := run_labels (init_state a b c d) ls in
+  let s' := step s l in
+  is_cont c0 = true -> In (EvRet t c0 RMachineError) (appended s s') ->
+  ~ In (t, false) (cont_plugins s') /\
+  enabled_of (trace s') = Some (nonempty (cont_plugins s')) /\
+  (cont_plugins s' = [] -> enabled_of (trace s') = Some false).
+Proof.
+  intros s s' Hc Hin. destruct (refused_appended s l t c0 Hc Hin) as (A & B).
+  fold s' in A, B. repeat split; auto. intros E. rewrite B, E. reflexivity.
+Qed.
+
+Theorem plain_run_never_auto a b c d ls :
+  let s := run_labels (init_state a b c d) ls in
+  run_cont s = false -> runt s <> None -> forall x, In x (cont_plugins s) -> snd x = false.
+Proof. intros s Hrc _. apply plain_run_reachable. exact Hrc. Qed.
+
+Theorem started_own_run a b c d ls t :
+  let s := run_labels (init_state a b c d) ls in
+  In (t, true) (cont_plugins s) -> t = run_owner s /\ run_cont s = true /\ mid (runt s) = true.
+Proof. intros s Hin. destruct (cont_inv_reachable a b c d ls) as (_ & _ & H & _). apply H. exact Hin. Qed.
+
+Theorem closed_request_reachable a b c d ls t c0 :
+  let s := run_labels (init_state a b c d) ls in
+  cont_closed s = true -> is_cont c0 = true -> find_task (tasks s) t = None ->
+  step s (Call t c0) =
+  set_trace (set_tasks s (remove_task (tasks s) t)) (EvRet t c0 RRuntimeError :: EvCall t c0 :: trace s).
+Proof. intros s. apply closed_request. Qed.
+
+(** ================================================================== *)
+(** The converse invariant: a continue request that is pending or whose run
+    is in progress HAS its plugin registered (so the flag is true then). *)
+Record CK (s : state) : Prop := mkCK {
+  ck_wait : forall t c p, find_task (tasks s) t = Some (c, p) -> is_cont c = true ->
+            p = WaitLock1 \/ p = Granted1 -> In (t, false) (cont_plugins s);
+  ck_owner : fresh (runt s) = true ->
+             exists c, find_task (tasks s) (run_owner s) = Some (c, R_WaitStarted) /\ is_cont c = run_cont s;
+  ck_acc : fresh (runt s) = true -> run_cont s = true -> In (run_owner s, false) (cont_plugins s);
+  ck_run : mid (runt s) = true -> run_cont s = true -> In (run_owner s, true) (cont_plugins s);
+  ck_ev : fresh (runt s) = true -> started_ev s = false
+}.
+
+Lemma find_rel_tasks_bwd q ts t' c p' :
+  find_task (rel_tasks q ts) t' = Some (c, p') ->
+  exists p, find_task ts t' = Some (c, p) /\ (p' = p \/ (waitlock p = true /\ p' = granted_pc p)).
+Proof.
+  unfold rel_tasks. destruct q as [|t1 q]; [eauto|].
+  destruct (find_task ts t1) as [[c1 p1]|] eqn:E1; [|eauto].
+  destruct (Nat.eq_dec t' t1) as [->|Hn].
+  - rewrite find_put_eq. intros H. inversion H; subst. exists p1. split; auto.
+    destruct (waitlock p1) eqn:Ew; auto. left. destruct p1; simpl in *; try discriminate; reflexivity.
+  - rewrite find_put_neq by assumption. eauto.
+Qed.
+
+Definition tback (ts ts' : ttab) (t : nat) : Prop :=
+  forall t' c p', t' <> t -> find_task ts' t' = Some (c, p') ->
+  exists p, find_task ts t' = Some (c, p) /\ (p' = p \/ (waitlock p = true /\ p' = granted_pc p)).
+
+Lemma HRes_tback s t s' : HRes s t s' -> tback (tasks s) (tasks s') t.
+Proof.
+  intros [(_ & _ & c & p & _ & _ & E) | [(_ & _ & E) | (_ & _ & c & p & _ & _ & _ & E)]] t' c' p' Hn; rewrite E.
+  - rewrite find_put_neq by assumption. eauto.
+  - rewrite find_remove_neq by assumption. apply find_rel_tasks_bwd.
+  - rewrite find_put_neq by assumption. apply find_rel_tasks_bwd.
+Qed.
+
+Lemma wait_back p p0 : p = WaitLock1 \/ p = Granted1 ->
+  p = p0 \/ (waitlock p0 = true /\ p = granted_pc p0) -> p0 = WaitLock1 \/ p0 = Granted1.
+Proof.
+  intros Hp [<- | (Hw & E)]; auto. destruct p0; simpl in *; try discriminate; auto;
+    destruct Hp; subst; discriminate.
+Qed.
+
+(** the new pc of the task that moved is not one of the pending ones *)
+Definition own_ok (ts' : ttab) (t : nat) : Prop :=
+  forall c p, find_task ts' t = Some (c, p) -> pend_pcb p = false.
+
+Definition ckv (s : state) := (cont_plugins s, run_owner s, run_cont s, runt s, started_ev s).
+
+Lemma CK_frame s s' t c p :
+  CK s -> find_task (tasks s) t = Some (c, p) ->
+  tstep (tasks s) (tasks s') t -> tback (tasks s) (tasks s') t -> own_ok (tasks s') t ->
+  ckv s' = ckv s -> p <> R_WaitStarted \/ started_ev s = true -> CK s'.
+Proof.
+  intros [k1 k2 k3 k4 k5] Hf Hfw Hbw Hown E Hp.
+  unfold ckv in E. inversion E as [[E1 E2 E3 E4 E5]].
+  constructor; rewrite ?E1, ?E2, ?E3, ?E4, ?E5; auto.
+  - intros t' c' p' Hf' Hc' Hp'. destruct (Nat.eq_dec t' t) as [->|Hn].
+    + pose proof (Hown _ _ Hf') as Ho. destruct Hp' as [-> | ->]; discriminate.
+    + destruct (Hbw _ _ _ Hn Hf') as (p0 & Hf0 & Hr). eapply k1; eauto. eapply wait_back; eauto.
+  - intros Hfr. destruct (k2 Hfr) as (c0 & Hf0 & Hc0). exists c0. split; auto.
+    destruct (Nat.eq_dec (run_owner s) t) as [Heq|Hn].
+    + rewrite Heq, Hf in Hf0. inversion Hf0; subst. destruct Hp as [Hp | Hp]; [congruence|].
+      rewrite (k5 Hfr) in Hp. discriminate.
+    + destruct (Hfw _ _ _ Hn Hf0) as (p' & Hf' & [-> | ->]); exact Hf'.
+Qed.
+
+Lemma CK_holder_neutral s s' t c p :
+  CK s -> find_task (tasks s) t = Some (c, p) -> HRes s t s' -> own_ok (tasks s') t ->
+  ckv s' = ckv s -> p <> R_WaitStarted \/ started_ev s = true -> CK s'.
+Proof.
+  intros HK Hf HR Hown E Hp. eapply CK_frame; eauto; [apply HRes_tstep | apply HRes_tback]; auto.
+Qed.
+
+Ltac own_tac :=
+  let c' := fresh "c'" in let p' := fresh "p'" in let Hf' := fresh "Hf'" in
+  intros c' p' Hf'; simpl in Hf'; rewrite ?release_tasks, ?apply_rest_tasks in Hf'; simpl in Hf';
+  rewrite ?find_remove_eq, ?find_put_eq in Hf'; first [discriminate | inversion Hf'; reflexivity].
+
+Ltac kneutral tac :=
+  eapply CK_holder_neutral;
+  [ eassumption | eassumption | tac | own_tac | unfold ckv; cv_simpl; reflexivity
+  | first [left; discriminate | left; assumption | right; assumption] ].
+
+Lemma unreg_keeps t l x : In x l -> fst x <> t \/ snd x = true -> In x (filter (unreg_pred t) l).
+Proof.
+  intros Hin Hor. apply filter_In. split; auto. unfold unreg_pred. destruct x as [t' b]. simpl in *.
+  destruct Hor as [Hn | ->]; [|rewrite Bool.andb_false_r; reflexivity].
+  apply Nat.eqb_neq in Hn. rewrite Hn. reflexivity.
+Qed.
+
+Lemma CK_unreg s s' t c G :
+  CK s -> find_task (tasks s) t = Some (c, G) -> G <> R_WaitStarted -> HRes s t s' ->
+  find_task (tasks s') t = None ->
+  cont_plugins s' = filter (unreg_pred t) (cont_plugins s) ->
+  run_owner s' = run_owner s -> run_cont s' = run_cont s -> runt s' = runt s -> started_ev s' = started_ev s ->
+  CK s'.
+Proof.
+  intros [k1 k2 k3 k4 k5] Hf HG HR Hnone Ep E2 E3 E4 E5.
+  assert (Hown : fresh (runt s) = true -> run_owner s <> t).
+  { intros Hfr Heq. destruct (k2 Hfr) as (c0 & Hf0 & _). rewrite Heq, Hf in Hf0. congruence. }
+  constructor; rewrite ?Ep, ?E2, ?E3, ?E4, ?E5; auto.
+  - intros t' c' p' Hf' Hc' Hp'. assert (Hn : t' <> t) by (intros ->; congruence).
+    destruct (HRes_tback _ _ _ HR _ _ _ Hn Hf') as (p0 & Hf0 & Hr).
+    apply unreg_keeps; [|left; exact Hn]. eapply k1; eauto. eapply wait_back; eauto.
+  - intros Hfr. destruct (k2 Hfr) as (c0 & Hf0 & Hc0). exists c0. split; auto.
+    destruct (HRes_tstep _ _ _ HR _ _ _ (Hown Hfr) Hf0) as (p' & Hf' & [-> | ->]); exact Hf'.
+  - intros Hfr Hrc. apply unreg_keeps; auto.
+  - intros Hm Hrc. apply unreg_keeps; auto.
+Qed.
+
+Lemma CK_refuse s t c G :
+  CK s -> find_task (tasks s) t = Some (c, G) -> G <> R_WaitStarted -> CK (refuse s t c).
+Proof.
+  intros HK Hf HG. unfold refuse. destruct (is_cont c) eqn:Ec.
+  - destruct (cont_closed (release s)).
+    + eapply CK_unreg; eauto; try (cv_simpl; reflexivity).
+      * relfin.
+      * simpl. apply find_remove_eq.
+    + eapply CK_unreg; eauto; try (cv_simpl; reflexivity).
+      * relfin.
+      * simpl. apply find_remove_eq.
+  - eapply CK_holder_neutral; eauto.
+    + relfin.
+    + own_tac.
+    + unfold ckv. cv_simpl. reflexivity.
+Qed.
+
+Lemma CK_enter_run s t c :
+  FI s -> CK s -> find_task (tasks s) t = Some (c, Granted1) -> CK (enter_run s t c).
+Proof.
+  intros HF HK Hf. unfold enter_run.
+  destruct (st_fsm s) eqn:Efs; try (eapply CK_refuse; eauto; discriminate).
+  assert (Hr : runt s = None).
+  { destruct HF as [_ HS]. eapply Scal_idle; eauto; rewrite Efs; discriminate. }
+  pose proof HK as [k1 k2 k3 k4 k5].
+  constructor; simpl; auto; try discriminate.
+  - intros t' c' p' Hf' Hc' Hp'. destruct (Nat.eq_dec t' t) as [->|Hn].
+    + rewrite find_put_eq in Hf'. inversion Hf'; subst. destruct Hp'; discriminate.
+    + rewrite find_put_neq in Hf' by assumption. eauto.
+  - intros _. exists c. rewrite find_put_eq. auto.
+  - intros _ Hc. eapply k1; eauto.
+Qed.
+
+Lemma CK_close_trigger s t p :
+  CK s -> find_task (tasks s) t = Some (CClose, p) -> p <> R_WaitStarted \/ started_ev s = true ->
+  CK (close_trigger s t).
+Proof.
+  intros HK Hf Hp. pose proof (HRes_close_trigger s t) as HR. unfold close_trigger in *.
+  destruct (st_fsm s); try destruct (runt s);
+    (eapply CK_holder_neutral; [eassumption | eassumption | exact HR | own_tac | unfold ckv; cv_simpl; reflexivity | exact Hp]).
+Qed.
+
+Lemma CK_pub_endall s : CK s -> CK (publish s PEndAll).
+Proof. intros [k1 k2 k3 k4 k5]. constructor; auto. Qed.
+
+Lemma CK_enter_close s t p :
+  CK s -> find_task (tasks s) t = Some (CClose, p) -> p <> R_WaitStarted \/ started_ev s = true ->
+  CK (enter_close s t).
+Proof.
+  intros HK Hf Hp. unfold enter_close. pose proof (CK_pub_endall _ HK) as HK1.
+  destruct (st_fsm (publish s PEndAll)); try (eapply CK_close_trigger; eauto; fail).
+  destruct (run_finished (publish s PEndAll)) as [[|]|].
+  - eapply CK_close_trigger; eauto.
+  - eapply CK_holder_neutral; [exact HK | exact Hf | hput CClose C_WaitRunFinished | own_tac
+                              | unfold ckv; cv_simpl; reflexivity | exact Hp].
+  - eapply (CK_holder_neutral (publish s PEndAll)); [exact HK1 | exact Hf | relfin | own_tac
+                              | unfold ckv; cv_simpl; reflexivity | exact Hp].
+Qed.
+
+Lemma CK_enter (s : state) (t : nat) (c : call) (part2 : bool) :
+  LkS s -> FI s -> CK s ->
+  find_task (tasks s) t = Some (c, if part2 then Granted2 else Granted1) ->
+  CK (enter s t c part2).
+Proof.
+  intros HL HF HK Hf. unfold enter.
+  pose proof (lk_compat _ _ _ HL _ _ _ Hf) as Hc.
+  assert (HG : (if part2 then Granted2 else Granted1) <> R_WaitStarted) by (destruct part2; discriminate).
+  assert (Hrun : runlike c = true -> CK (enter_run s t c)).
+  { intros Hrl. destruct part2; [destruct c; discriminate|]. apply CK_enter_run; auto. }
+  destruct c; auto.
+  - unfold enter_start. destruct (st_fsm s); try (eapply CK_refuse; eauto; fail).
+    kneutral ltac:(hput CStart S_G1).
+  - unfold enter_reset. destruct (st_fsm s); try (eapply CK_refuse; eauto; fail);
+      (destruct (o_stmt o); [kneutral ltac:(hput (CReset o) Z_G1) | kneutral ltac:(hput (CReset o) Z_G1b)]).
+  - destruct part2; [eapply CK_enter_close; eauto; left; discriminate|].
+    unfold enter_start. destruct (st_fsm s); try (eapply CK_refuse; eauto; fail).
+    kneutral ltac:(hput CClose S_G1).
+Qed.
+
+Lemma CK_ext s s' : tasks s' = tasks s -> ckv s' = ckv s -> CK s -> CK s'.
+Proof.
+  intros Et E [k1 k2 k3 k4 k5]. unfold ckv in E. inversion E as [[E1 E2 E3 E4 E5]].
+  constructor; rewrite ?Et, ?E1, ?E2, ?E3, ?E4, ?E5; auto.
+Qed.
+
+Lemma CK_acquire (s : state) (t : nat) (c : call) (part2 : bool) :
+  LkS s -> FI s -> find_task (tasks s) t = None ->
+  compat c (if part2 then Granted2 else Granted1) = true ->
+  CK (set_pc s t c (if part2 then WaitLock2 else WaitLock1)) ->
+  CK (set_pc s t c (if part2 then Granted2 else Granted1)) ->
+  CK (acquire s t c part2).
+Proof.
+  intros HL HF Hnew Hc HW HG. unfold acquire.
+  destruct (holder s) as [h|] eqn:Eh.
+  - eapply CK_ext; [| | exact HW]; reflexivity.
+  - destruct (lockq s) as [|t1 q] eqn:Eq.
+    + set (G := if part2 then Granted2 else Granted1) in *.
+      set (s2 := set_pc (set_holder s (Some t)) t c G).
+      assert (HL2 : LkS s2).
+      { unfold LkS, s2. simpl. rewrite Eq. unfold LkS in HL. rewrite Eh, Eq in HL.
+        apply Lk_take; auto. unfold G. destruct part2; reflexivity. }
+      assert (HF2 : FI s2).
+      { destruct HF as [HP HS]. split; auto. unfold s2. simpl. apply PcOk_put; auto.
+        unfold G. destruct part2; reflexivity. }
+      assert (HK2 : CK s2) by (eapply CK_ext; [| | exact HG]; reflexivity).
+      apply CK_enter; auto. unfold s2. simpl. apply find_put_eq.
+    + eapply CK_ext; [| | exact HW]; reflexivity.
+Qed.
+
+(** a new entry for a task that was not in the table *)
+Lemma CK_new_task s s1 t c p :
+  CK s -> find_task (tasks s) t = None -> tasks s1 = tasks s ->
+  run_owner s1 = run_owner s -> run_cont s1 = run_cont s -> runt s1 = runt s -> started_ev s1 = started_ev s ->
+  (forall x, In x (cont_plugins s) -> In x (cont_plugins s1)) ->
+  (is_cont c = true -> p = WaitLock1 \/ p = Granted1 -> In (t, false) (cont_plugins s1)) ->
+  CK (set_pc s1 t c p).
+Proof.
+  intros [k1 k2 k3 k4 k5] Hnew Et E2 E3 E4 E5 Hincl Hreg.
+  constructor; simpl; rewrite ?Et, ?E2, ?E3, ?E4, ?E5; auto.
+  - intros t' c' p' Hf' Hc' Hp'. destruct (Nat.eq_dec t' t) as [->|Hn].
+    + rewrite find_put_eq in Hf'. inversion Hf'; subst. auto.
+    + rewrite find_put_neq in Hf' by assumption. eauto.
+  - intros Hfr. destruct (k2 Hfr) as (c0 & Hf0 & Hc0). exists c0. split; auto.
+    rewrite find_put_neq; auto. intros Heq. congruence.
+Qed.
+
+Lemma CK_finish_free s s1 t c r :
+  CK s -> tasks s1 = tasks s -> ckv s1 = ckv s ->
+  (forall c0 p0, find_task (tasks s) t = Some (c0, p0) -> p0 <> R_WaitStarted) ->
+  CK (finish_call s1 t c r).
+Proof.
+  intros [k1 k2 k3 k4 k5] Et E Hnr. unfold ckv in E. inversion E as [[E1 E2 E3 E4 E5]].
+  constructor; simpl; rewrite ?Et, ?E1, ?E2, ?E3, ?E4, ?E5; auto.
+  - intros t' c' p' Hf' Hc' Hp'. destruct (Nat.eq_dec t' t) as [->|Hn].
+    + rewrite find_remove_eq in Hf'. discriminate.
+    + rewrite find_remove_neq in Hf' by assumption. eauto.
+  - intros Hfr. destruct (k2 Hfr) as (c0 & Hf0 & Hc0). exists c0. split; auto.
+    rewrite find_remove_neq; auto. intros Heq. rewrite Heq in Hf0. apply (Hnr _ _ Hf0). reflexivity.
+Qed.
+
+Ltac knew s :=
+  apply (CK_new_task s); simpl; auto;
+  try (intros; discriminate);
+  try (intros; apply in_or_app; auto; fail);
+  try (intros; apply in_or_app; right; left; reflexivity).
+
+Lemma CK_do_call s t c : LkS s -> FI s -> CK s -> CK (do_call s t c).
+Proof.
+  intros HL HF HK. unfold do_call. destruct (find_task (tasks s) t) as [x|] eqn:Ef; auto.
+  assert (Hnr : forall c0 p0, find_task (tasks s) t = Some (c0, p0) -> p0 <> R_WaitStarted) by (intros; congruence).
+  destruct c; cbn [nl_started nl_closed cont_closed running_process send_command set_trace].
+  - destruct (nl_started s); [apply (CK_finish_free s); auto|].
+    apply CK_acquire; [exact HL | exact HF | exact Ef | reflexivity | knew s | knew s].
+  - apply CK_acquire; [exact HL | exact HF | exact Ef | reflexivity | knew s | knew s].
+  - apply CK_acquire; [exact HL | exact HF | exact Ef | reflexivity | knew s | knew s].
+  - destruct (nl_closed s); [apply (CK_finish_free s); auto|]. simpl.
+    destruct (nl_started s);
+      (apply CK_acquire; [exact HL | exact HF | exact Ef | reflexivity | knew s | knew s]).
+  - destruct (cont_closed s); [apply (CK_finish_free s); auto|].
+    apply CK_acquire; [exact HL | exact HF | exact Ef | reflexivity | knew s | knew s].
+  - destruct (cont_closed s); [apply (CK_finish_free s); auto|].
+    apply CK_acquire; [exact HL | exact HF | exact Ef | reflexivity | knew s | knew s].
+  - apply CK_acquire; [exact HL | exact HF | exact Ef | reflexivity | knew s | knew s].
+  - destruct (running_process s); [knew s | apply (CK_finish_free s); auto].
+  - destruct (send_command s); [knew s | apply (CK_finish_free s); auto].
+Qed.
+
+Lemma tback_rel_put q ts t x : tback ts (put_task (rel_tasks q ts) t x) t.
+Proof. intros u c p Hn Hf. rewrite find_put_neq in Hf by assumption. apply find_rel_tasks_bwd in Hf. exact Hf. Qed.
+
+Lemma CK_requeue s t :
+  LkS s -> FI s -> CK s -> holder s = Some t -> find_task (tasks s) t = Some (CClose, S_G3) ->
+  CK (acquire (release s) t CClose true).
+Proof.
+  intros HL HF HK Hh Hf. pose proof HF as [HP HS].
+  pose proof HL as HL0. unfold LkS in HL0. rewrite Hh in HL0.
+  pose proof (Lk_release_forget _ _ _ HL0) as HFg.
+  assert (HSr : Scal (st_fsm (release s)) (runt (release s)) (run_finished (release s)) (alive (release s))
+                     (pending_exit (release s)) (run_arg (release s))).
+  { rewrite rl_fsm, rl_runt, rl_rf, rl_alive, rl_pe, rl_ra. exact HS. }
+  assert (Hgen : forall s', tasks s' = put_task (tasks (release s)) t (CClose, WaitLock2) \/
+                            tasks s' = put_task (tasks (release s)) t (CClose, Granted2) ->
+                            ckv s' = ckv (release s) -> CK s').
+  { intros s' Et E. eapply (CK_frame s s' t); eauto.
+    - rewrite release_tasks in Et. destruct Et as [-> | ->]; apply tstep_rel_put.
+    - rewrite release_tasks in Et. destruct Et as [-> | ->]; apply tback_rel_put.
+    - intros c' p' Hf'. destruct Et as [Et | Et]; rewrite Et, find_put_eq in Hf'; inversion Hf'; reflexivity.
+    - rewrite E. unfold ckv. cv_simpl. reflexivity.
+    - left. discriminate. }
+  unfold acquire. rewrite release_holder, release_lockq.
+  destruct (rel_holder (lockq s)) as [h|] eqn:Eh.
+  - apply Hgen; auto.
+  - destruct (tl (lockq s)) as [|t1 q] eqn:Eq.
+    + set (s2 := set_pc (set_holder (release s) (Some t)) t CClose Granted2).
+      assert (HL2 : LkS s2).
+      { unfold LkS, s2. simpl. rewrite ?release_lockq, ?release_tasks, ?Eq. apply Lk_readd_take; auto. }
+      assert (HF2 : FI s2).
+      { split; auto. unfold s2. simpl. rewrite release_tasks. apply PcOk_release_put; auto. }
+      assert (HK2 : CK s2) by (apply Hgen; auto).
+      apply (CK_enter s2 t CClose true); auto. unfold s2. simpl. apply find_put_eq.
+    + apply Hgen; auto.
+Qed.
+
+Lemma CK_do_step s t : LkS s -> FI s -> CK s -> CK (do_step s t).
+Proof.
+  intros HL HF HK. unfold do_step. destruct (find_task (tasks s) t) as [[c p]|] eqn:Ef; auto.
+  pose proof (lk_compat _ _ _ HL _ _ _ Ef) as Hc.
+  assert (Hhold : locked_pc p = true -> holder s = Some t) by (intros Hl; eapply (lk_holder_of _ _ _ HL); eauto).
+  destruct p; simpl in Hhold; try specialize (Hhold eq_refl); auto.
+  - apply (CK_enter s t c false); auto.
+  - apply (CK_enter s t c true); auto.
+  - kneutral ltac:(hput c S_G2).
+  - kneutral ltac:(hput c S_G3).
+  - destruct c; simpl in Hc; try discriminate.
+    + kneutral relfin.
+    + apply CK_requeue; auto.
+  - destruct (started_ev s) eqn:Esv; auto. kneutral ltac:(hput c R_G).
+  - destruct c; simpl in Hc; try discriminate; try (kneutral relfin; fail);
+      (kneutral ltac:(right; right; simpl; rewrite release_holder, release_lockq, release_tasks;
+                      repeat split; auto;
+                      match goal with E : find_task _ _ = Some (?c0, _) |- _ => apply (ex_intro _ c0) end;
+                      exists P_WaitRunFinished; simpl; auto)).
+  - destruct c; simpl in Hc; try discriminate. kneutral ltac:(hput (CReset o) Z_G1b).
+  - destruct (st_fsm s); try (kneutral ltac:(hput c Z_G3); fail).
+    destruct (runt s); [kneutral ltac:(hput c Z_WaitRunTask) | kneutral ltac:(hput c Z_G3)].
+  - destruct (runt s); auto. kneutral ltac:(hput c Z_G3).
+  - kneutral ltac:(hput c Z_G4).
+  - kneutral relfin.
+  - destruct (run_finished s) as [[|]|]; auto.
+    destruct c; simpl in Hc; try discriminate. eapply CK_close_trigger; eauto. left. discriminate.
+  - destruct (runt s); auto. destruct c; simpl in Hc; try discriminate. kneutral ltac:(hput CClose C_G3).
+  - kneutral ltac:(hput c C_G4).
+  - kneutral relfin.
+  - destruct (run_finished s) as [[|]|]; auto. apply (CK_finish_free s); auto.
+    intros c0 p0 Hf0. rewrite Ef in Hf0. inversion Hf0. discriminate.
+  - apply (CK_finish_free s); auto. intros c0 p0 Hf0. rewrite Ef in Hf0. inversion Hf0. discriminate.
+Qed.
+
+Lemma CK_run_step s s' :
+  CK s -> tasks s' = tasks s -> cont_plugins s' = cont_plugins s ->
+  run_owner s' = run_owner s -> run_cont s' = run_cont s ->
+  (fresh (runt s') = true -> fresh (runt s) = true /\ started_ev s' = started_ev s) ->
+  (mid (runt s') = true -> mid (runt s) = true) -> CK s'.
+Proof.
+  intros [k1 k2 k3 k4 k5] Et Ep E2 E3 Hfr Hm.
+  constructor; rewrite ?Et, ?Ep, ?E2, ?E3; auto.
+  - intros H. destruct (Hfr H). auto.
+  - intros H. destruct (Hfr H). auto.
+  - intros H. destruct (Hfr H) as (H1 & ->). auto.
+Qed.
+
+Lemma arm_keeps r o l t : In (t, false) l -> t <> o -> In (t, false) (arm r o l).
+Proof.
+  intros Hin Hn. unfold arm. apply in_map_iff. exists (t, false). split; auto. simpl.
+  apply Nat.eqb_neq in Hn. rewrite Hn, Bool.andb_false_r. reflexivity.
+Qed.
+
+Lemma arm_owner o l : In (o, false) l -> In (o, true) (arm true o l).
+Proof.
+  intros Hin. unfold arm. apply in_map_iff. exists (o, false). split; auto. simpl.
+  rewrite Nat.eqb_refl. reflexivity.
+Qed.
+
+Lemma CK_arm s s3 :
+  CK s -> runt s = Some RT_Created -> tasks s3 = tasks s ->
+  run_owner s3 = run_owner s -> run_cont s3 = run_cont s ->
+  CK (set_runt (set_cont_plugins s3 (arm (run_cont s) (run_owner s) (cont_plugins s))) (Some RT_G_start)).
+Proof.
+  intros [k1 k2 k3 k4 k5] Hr Et E2 E3. rewrite Hr in *.
+  destruct (k2 eq_refl) as (c0 & Hf0 & Hc0).
+  constructor; simpl; rewrite ?Et, ?E2, ?E3; auto; try discriminate.
+  - intros t c p Hf Hc Hp. apply arm_keeps; eauto.
+    intros ->. rewrite Hf0 in Hf. inversion Hf; subst. destruct Hp; discriminate.
+  - intros _ Hrc. rewrite Hrc. apply arm_owner. auto.
+Qed.
+
+Lemma CK_after_finish s s3 n :
+  CK s -> runt s = Some RT_G_end -> tasks s3 = tasks s -> cont_plugins s3 = cont_plugins s ->
+  (length (cont_plugins s3) <= n)%nat ->
+  CK (set_runt (cont_finished s3 n) (Some RT_G_fin)).
+Proof.
+  intros [k1 k2 k3 k4 k5] Hr Et Ep Hn.
+  destruct (cfv_fields _ _ (cf_fields n s3)) as (_ & _ & _ & _ & _ & _ & _ & E8).
+  assert (Epl : cont_plugins (cont_finished s3 n) = filter unstarted (cont_plugins s)).
+  { rewrite cf_plugins; [rewrite Ep; reflexivity|]. pose proof (filter_length_le (fun x : nat * bool => snd x) (cont_plugins s3)). lia. }
+  constructor; simpl; try discriminate.
+  intros t c p Hf Hc Hp. rewrite Epl. apply filter_In. split; [|reflexivity].
+  rewrite E8, Et in Hf. eauto.
+Qed.
+
+Lemma CK_step_run s : FI s -> CK s -> CK (do_step_run s).
+Proof.
+  intros HF HK. pose proof HF as [HP HS].
+  unfold do_step_run. destruct (runt s) as [x|] eqn:Er; auto.
+  assert (Hra : early x = true -> run_arg s <> None).
+  { intros He. apply (sc_ra _ _ _ _ _ _ HS). right. eapply sc_early; eauto. }
+  destruct x.
+  - destruct (run_arg s) eqn:Era; [|exfalso; apply Hra; auto].
+    apply (CK_run_step s); simpl; auto; rewrite Er; simpl; auto.
+  - simpl. destruct (run_arg s) eqn:Era; [|exfalso; apply Hra; auto].
+    apply (CK_arm s); auto.
+  - apply (CK_run_step s); simpl; auto; rewrite Er; simpl; auto; discriminate.
+  - destruct (run_call_pending s); auto. destruct (pending_exit s) as [o|] eqn:Epe; auto.
+    simpl. destruct (run_arg s) eqn:Era; [|exfalso; apply Hra; auto].
+    apply (CK_run_step s); simpl; auto; rewrite Er; simpl; auto; discriminate.
+  - pose proof (sc_early _ _ _ _ _ _ HS _ eq_refl eq_refl) as Hfs.
+    unfold run_finish. simpl. rewrite Hfs. apply (CK_after_finish s); auto.
+  - apply (CK_run_step s); simpl; auto; rewrite Er; simpl; auto; discriminate.
+  - apply (CK_run_step s); simpl; auto; rewrite Er; simpl; auto; discriminate.
+Qed.
+
+Theorem CK_step s l : LkS s -> FI s -> CK s -> CK (step s l).
+Proof.
+  intros HL HF HK. destruct l; simpl.
+  - apply CK_do_call; auto.
+  - apply CK_do_step; auto.
+  - apply CK_step_run; auto.
+  - unfold do_child_exit. destruct (alive s); auto. eapply CK_ext; [| | exact HK]; reflexivity.
+Qed.
+
+Lemma CK_init a b c d : CK (init_state a b c d).
+Proof. constructor; simpl; try discriminate. Qed.
+
+Theorem CK_reachable a b c d ls : CK (run_labels (init_state a b c d) ls).
+Proof.
+  assert (H : LkS (run_labels (init_state a b c d) ls) /\ FI (run_labels (init_state a b c d) ls) /\
+              CK (run_labels (init_state a b c d) ls)).
+  { unfold run_labels. generalize (LkS_init a b c d) (FI_init a b c d) (CK_init a b c d).
+    generalize (init_state a b c d).
+    induction ls as [|l ls IH]; intros s HL HF HK; simpl; auto.
+    apply IH; [apply LkS_step | apply FI_step | apply CK_step]; auto. }
+  apply H.
+Qed.
+
+(** a continue request is "active": its call waits for / has just got the lock, or
+    it was accepted and its run has not yet performed on_finished *)
+Definition active (s : state) : Prop :=
+  (exists t c p, find_task (tasks s) t = Some (c, p) /\ is_cont c = true /\ (p = WaitLock1 \/ p = Granted1)) \/
+  (run_cont s = true /\ (fresh (runt s) = true \/ mid (runt s) = true)).
+
+Theorem registered_reachable a b c d ls :
+  let s := run_labels (init_state a b c d) ls in
+  (forall t c0 p, find_task (tasks s) t = Some (c0, p) -> is_cont c0 = true ->
+                  p = WaitLock1 \/ p = Granted1 -> In (t, false) (cont_plugins s)) /\
+  (run_cont s = true -> fresh (runt s) = true -> In (run_owner s, false) (cont_plugins s)) /\
+  (run_cont s = true -> mid (runt s) = true -> In (run_owner s, true) (cont_plugins s)).
+Proof.
+  intros s. destruct (CK_reachable a b c d ls) as [k1 k2 k3 k4 k5]. fold s in k1, k2, k3, k4, k5.
+  repeat split; auto.
+Qed.
+
+Lemma active_plugins s : CK s -> active s -> cont_plugins s <> [].
+Proof.
+  intros [k1 k2 k3 k4 k5] [(t & c & p & Hf & Hc & Hp) | (Hrc & [Hfr | Hm])] E.
+  - pose proof (k1 _ _ _ Hf Hc Hp) as Hin. rewrite E in Hin. destruct Hin.
+  - pose proof (k3 Hfr Hrc) as Hin. rewrite E in Hin. destruct Hin.
+  - pose proof (k4 Hm Hrc) as Hin. rewrite E in Hin. destruct Hin.
+Qed.
+
+Lemma plugins_active s : cont_inv s -> cont_plugins s <> [] -> active s.
+Proof.
+  intros (Hp & _ & Hr & _) Hne. destruct (cont_plugins s) as [|[t b] l] eqn:E; [congruence|].
+  destruct b.
+  - destruct (Hr t (or_introl eq_refl)) as (_ & Hrc & Hm). right. auto.
+  - destruct (Hp t (or_introl eq_refl)) as (c & p & Hf & Hc & [-> | [-> | (_ & _ & Hrc & Hfr)]]).
+    + left. exists t, c, WaitLock1. auto.
+    + left. exists t, c, Granted1. auto.
+    + right. auto.
+Qed.
+
+(** the flag, exactly: true while a continue request is active, false otherwise *)
+Theorem flag_exact a b c d ls :
+  let s := run_labels (init_state a b c d) ls in
+  nl_started s = true -> cont_closed s = false ->
+  (active s -> enabled_of (trace s) = Some true) /\
+  (~ active s -> enabled_of (trace s) = Some false).
+Proof.
+  intros s Hst Hcl. destruct (flag_reachable a b c d ls) as (Hfl & _). fold s in Hfl.
+  rewrite (Hfl Hst Hcl).
+  pose proof (CK_reachable a b c d ls) as HK. pose proof (cont_inv_reachable a b c d ls) as HI.
+  fold s in HK, HI. split; intros Ha.
+  - pose proof (active_plugins _ HK Ha) as Hne. destruct (cont_plugins s); [congruence | reflexivity].
+  - destruct (cont_plugins s) eqn:E; [reflexivity|]. exfalso. apply Ha. apply plugins_active; auto.
+    rewrite E. discriminate.
 Qed.
